@@ -128,7 +128,7 @@ func cmdRun(args []string) {
 
 	t0 := time.Now()
 	// generous wall-clock watchdog: its firing is "inconclusive", never a violation by itself
-	limit := 12 * time.Minute
+	limit := 6 * time.Minute
 	if *tier == "thorough" {
 		limit = 100 * time.Minute
 	}
@@ -137,7 +137,7 @@ func cmdRun(args []string) {
 		atomic.StoreInt32(&watchdogFired, 1)
 		// steps become no-ops now; if some step never returns, report what the monitors have
 		// seen so far and leave
-		time.Sleep(90 * time.Second)
+		time.Sleep(60 * time.Second)
 		statsMu.Lock()
 		partial := NewStats()
 		for _, st := range allStats {
@@ -159,7 +159,7 @@ func cmdRun(args []string) {
 				code = 1
 			}
 		}
-		fmt.Printf("INCONCLUSIVE watchdog: a step did not return within %s + 90 s (hang); violations observed until then are listed above\n", limit)
+		fmt.Printf("INCONCLUSIVE watchdog: a step did not return within %s + 60 s (hang); violations observed until then are listed above\n", limit)
 		os.Exit(code)
 	}()
 	n := 500
